@@ -1,5 +1,6 @@
 (* Properties_C04.v — end to end, browsers converge to the services actually offered (partial). *)
-From QV Require Import Base Fields SrcFacts Msg SrcDecisions Cache CacheSpec Sim Prober Hostname Provider ProviderSpec ProviderListener Browser BrowserProofs NetProofs.
+From QV Require Import Base Fields SrcFacts Msg SrcDecisions Cache CacheSpec Sim Prober Hostname Provider ProviderSpec ProviderListener Browser BrowserProofs NetProofs NetHop NetPair NetLag.
+From QV Require Import Decoder Encoder WireSpec WireMsg DecoderMsg EncoderMsg.
 Local Open Scope Z_scope.
 
 (* PARTIAL.  The end-to-end statement quantifies over networks, delays, duplications and histories; it is decided on
@@ -10,7 +11,10 @@ Local Open Scope Z_scope.
      instance reports it as added with the provider's type, name, SRV target, port and (normalised) attributes;
    together with C01/C02 (the packet decodes to the message sent), C13 (what a listener's cache holds), C05/C06 (cache
    content = valid records), C14/C15 (removal on goodbye / expiry) these are the steps of the convergence argument in
-   DESIGN.md section 4 (C04); the induction over the network schedule itself is not mechanised. *)
+   DESIGN.md section 4 (C04).  The induction over the schedule is mechanised for the smallest network - one provider, one
+   passive browser, lossless in-order link with or without duplicated multicasts, every provider history
+   (C04_pair_converges_partial, C04_pair_converges_duplicated_partial at the end of this file); and on a FIFO link
+   with arbitrary delay (C04_lagging_pair_converges_partial); for larger networks it is not. *)
 Theorem C04_announcement_shape_partial p :
   m_records (announce_msg p) = [pv_ptr p; pv_srv p; pv_txt p] /\ m_response (announce_msg p) = true.
 Proof. exact (announce_records p). Qed.
@@ -40,3 +44,248 @@ Theorem C04_remote_cache_holds_the_served_records_partial c L C :
   (pv_exists (cp_prov c) && pv_confirmed (cp_prov c) = false -> held C = []).
 Proof. intro R. destruct (remote_cache_holds_served c L C R) as (_ & _ & A & B). exact (conj A B). Qed.
 Print Assumptions C04_remote_cache_holds_the_served_records_partial.
+
+(* One hop, end to end on the models.  (1) A response carrying the three records of an announcement, heard by a browser
+   of that type that has heard nothing yet, goes through the browser's message handler, its cache (the model of
+   cache.cpp) and updateService, and is reported as serviceAdded with the announced type, name, target, port and
+   attributes.  (2) In EVERY reachable state in which the provider is confirmed, what it serves has that shape, so its
+   announcement is reported.  (3) ... also through the wire format: the packet the encoder produces for the announcement
+   decodes (C01) to a message that yields the same report - provider state -> bytes -> browser notification. *)
+Theorem C04_announcement_heard_partial now (ptr srv txt : record) (T nm : list N) addr port id :
+  announces ptr srv txt T nm -> index_of DOT nm = None -> T <> [] -> bytes_eqb T browse_type = false ->
+  (r_ttl ptr =? 0)%N = false -> (r_ttl srv =? 0)%N = false -> (r_ttl txt =? 0)%N = false ->
+  In (ESig 0%N SIG_serviceAdded
+        (PService (mkService (Some T) (Some nm) (r_target srv) (r_port srv)
+                             (fold_left (fun a kv => attrs_insert (fst kv) (snd kv) a) (r_attrs txt) []))))
+     (snd (browser_on_message now 0 (mkMessage addr port id true false [] [ptr; srv; txt])
+                              (mkWorld [empty_cache] [mkBrowser (Some T) 0 [] [] []] 0))).
+Proof. exact (announcement_heard now ptr srv txt T nm addr port id). Qed.
+Print Assumptions C04_announcement_heard_partial.
+
+Theorem C04_served_announcement_through_the_codec_partial c L (now : Z) (T : list N) :
+  lreach c L -> pv_exists (cp_prov c) = true -> pv_confirmed (cp_prov c) = true ->
+  r_name (pv_ptr (cp_prov c)) = Some T -> T <> [] -> bytes_eqb T browse_type = false ->
+  let p := cp_prov c in
+  wf_message (announce_msg p) ->
+  exists (m' : message) (nm : list N), decode (to_packet (announce_msg p)) = Ok m' /\ r_name (pv_srv p) = Some (nm ++ DOT :: T) /\
+    In (ESig 0%N SIG_serviceAdded
+          (PService (mkService (Some T) (Some nm) (r_target (pv_srv p)) (r_port (pv_srv p))
+                               (fold_left (fun a kv => attrs_insert (fst kv) (snd kv) a) (r_attrs (pv_txt p)) []))))
+       (snd (browser_on_message now 0 m' (mkWorld [empty_cache] [mkBrowser (Some T) 0 [] [] []] 0))).
+Proof. exact (served_announcement_through_the_codec c L now T). Qed.
+Print Assumptions C04_served_announcement_through_the_codec_partial.
+
+(* non-vacuity, by computation: register the host name, offer "a" of type "_t.", let the probe complete; the announcement
+   is encoded, decoded and handed to a fresh browser of type "_t.", which reports the service with port 80 *)
+Example C04_hop_nonvacuous :
+  let h0 := fst (on_rebroadcast (mkHost [118; 109]%N [] [] [] false 1)) in
+  let svc := mkService (Some [95; 116; 46]%N) (Some [97]%N) None 80 [] in
+  let evs := [(2000, EvTimer T_REG); (2000, EvApi PNewProv); (2000, EvApi (PUpdate svc)); (4000, EvTimer T_PROBER)] in
+  let c := fold_left (fun c ne => fst (comp_handle (fst ne) c (snd ne))) evs (mkComp h0 no_prov None) in
+  match decode (to_packet (announce_msg (cp_prov c))) with
+  | Ok m' => map (fun e => match e with ESig ob sg (PService s) => (ob, sg, bs_data (s_name s), s_port s) | _ => (9, 9, [], 0)%N end)
+                 (filter (fun e => match e with ESig _ _ _ => true | _ => false end)
+                         (snd (browser_on_message 4100 0 m' (mkWorld [empty_cache] [mkBrowser (Some [95; 116; 46]%N) 0 [] [] []] 0))))
+             = [(0, SIG_serviceAdded, [97], 80)]%N
+  | _ => False
+  end.
+Proof. vm_compute. reflexivity. Qed.
+
+(* The reverse hop: the goodbye a provider multicasts when it stops serving carries exactly the served records with TTL 0
+   (every reachable confirmed state); a browser of its type that reports the instance and whose cache holds those records
+   hears it - the cache drops the records, its expiry notification for the SRV record reaches the browser's slot - and
+   reports the service as removed. *)
+Theorem C04_served_goodbye_is_reported_partial c L now addr port id T b t1 t2 t3 nxt tm s :
+  lreach c L -> pv_exists (cp_prov c) = true -> pv_confirmed (cp_prov c) = true ->
+  r_name (pv_ptr (cp_prov c)) = Some T -> bytes_eqb T browse_type = false ->
+  b_type b = Some T -> b_cache b = 0%nat ->
+  let p := cp_prov c in
+  smap_find (bs_data (r_name (pv_srv p))) (b_services b) = Some s -> bs_is_null (s_name s) = false ->
+  In (ESig 0%N SIG_serviceRemoved (PService s))
+     (snd (browser_on_message now 0 (mkMessage addr port id true false [] (m_records (announce_msg (fst (farewell p)))))
+                              (mkWorld [mkCache [mkEntry (pv_ptr p) t1; mkEntry (pv_srv p) t2; mkEntry (pv_txt p) t3] nxt tm] [b] 0))).
+Proof. exact (served_goodbye_is_reported c L now addr port id T b t1 t2 t3 nxt tm s). Qed.
+Print Assumptions C04_served_goodbye_is_reported_partial.
+
+(* non-vacuity, by computation: the run of C04_hop_nonvacuous continued - the provider is destroyed, its goodbye is
+   encoded, decoded and handed to the browser in the state the announcement left it in: exactly one serviceRemoved *)
+Example C04_goodbye_hop_nonvacuous :
+  let h0 := fst (on_rebroadcast (mkHost [118; 109]%N [] [] [] false 1)) in
+  let svc := mkService (Some [95; 116; 46]%N) (Some [97]%N) None 80 [] in
+  let evs := [(2000, EvTimer T_REG); (2000, EvApi PNewProv); (2000, EvApi (PUpdate svc)); (4000, EvTimer T_PROBER)] in
+  let c := fold_left (fun c ne => fst (comp_handle (fst ne) c (snd ne))) evs (mkComp h0 no_prov None) in
+  let w0 := mkWorld [empty_cache] [mkBrowser (Some [95; 116; 46]%N) 0 [] [] []] 0 in
+  let bye := match snd (comp_handle 9000 c (EvApi PDestroy)) with ESendAll m :: _ => m | _ => default_message end in
+  match decode (to_packet (announce_msg (cp_prov c))), decode (to_packet bye) with
+  | Ok m1, Ok m2 =>
+      let w1 := fst (browser_on_message 4100 0 m1 w0) in
+      map (fun e => match e with ESig ob sg (PService s) => (ob, sg, bs_data (s_name s)) | _ => (9, 9, [])%N end)
+          (filter (fun e => match e with ESig _ _ _ => true | _ => false end) (snd (browser_on_message 9100 0 m2 w1)))
+      = [(0, SIG_serviceRemoved, [97])]%N
+  | _, _ => False
+  end.
+Proof. vm_compute. reflexivity. Qed.
+
+(* The update hop (C13: "changed SRV or TXT data under an unchanged name is announced so that it replaces the old data in
+   receivers' caches"): a browser that reports the instance and holds the three announced records hears a new
+   announcement whose SRV record - cache-flush bit set, same name - carries other data; the cache replaces the old SRV
+   record and the service is reported as updated with the new description. *)
+Theorem C04_replacement_heard_partial now (ptr srv srv' txt : record) (T nm : list N) addr port id b t1 t2 t3 nxt tm old :
+  announces ptr srv txt T nm -> announces ptr srv' txt T nm -> r_flush srv' = true ->
+  index_of DOT nm = None -> T <> [] -> bytes_eqb T browse_type = false ->
+  (r_ttl ptr =? 0)%N = false -> (r_ttl srv' =? 0)%N = false -> (r_ttl txt =? 0)%N = false ->
+  b_type b = Some T -> b_cache b = 0%nat ->
+  smap_find (nm ++ DOT :: T) (b_services b) = Some old ->
+  let s := mkService (Some T) (Some nm) (r_target srv') (r_port srv')
+                     (fold_left (fun a kv => attrs_insert (fst kv) (snd kv) a) (r_attrs txt) []) in
+  service_eqb old s = false ->
+  In (ESig 0%N SIG_serviceUpdated (PService s))
+     (snd (browser_on_message now 0 (mkMessage addr port id true false [] [ptr; srv'; txt])
+                              (mkWorld [mkCache [mkEntry ptr t1; mkEntry srv t2; mkEntry txt t3] nxt tm] [b] 0))).
+Proof. exact (replacement_heard now ptr srv srv' txt T nm addr port id b t1 t2 t3 nxt tm old). Qed.
+Print Assumptions C04_replacement_heard_partial.
+
+(* non-vacuity, by computation: after the announcement of C04_hop_nonvacuous the application changes the port to 81; the
+   provider (confirmed under that name) re-announces, the packet is decoded and handed to the browser: one serviceUpdated *)
+Example C04_update_hop_nonvacuous :
+  let h0 := fst (on_rebroadcast (mkHost [118; 109]%N [] [] [] false 1)) in
+  let svc := fun po => mkService (Some [95; 116; 46]%N) (Some [97]%N) None po [] in
+  let evs := [(2000, EvTimer T_REG); (2000, EvApi PNewProv); (2000, EvApi (PUpdate (svc 80%N))); (4000, EvTimer T_PROBER)] in
+  let c := fold_left (fun c ne => fst (comp_handle (fst ne) c (snd ne))) evs (mkComp h0 no_prov None) in
+  let w0 := mkWorld [empty_cache] [mkBrowser (Some [95; 116; 46]%N) 0 [] [] []] 0 in
+  let again := match filter (fun e => match e with ESendAll _ => true | _ => false end) (snd (comp_handle 5000 c (EvApi (PUpdate (svc 81%N))))) with
+               | ESendAll m :: _ => m | _ => default_message end in
+  match decode (to_packet (announce_msg (cp_prov c))), decode (to_packet again) with
+  | Ok m1, Ok m2 =>
+      let w1 := fst (browser_on_message 4100 0 m1 w0) in
+      map (fun e => match e with ESig ob sg (PService s) => (ob, sg, bs_data (s_name s), s_port s) | _ => (9, 9, [], 0)%N end)
+          (filter (fun e => match e with ESig _ _ _ => true | _ => false end) (snd (browser_on_message 5100 0 m2 w1)))
+      = [(0, SIG_serviceUpdated, [97], 81)]%N
+  | _, _ => False
+  end.
+Proof. vm_compute. reflexivity. Qed.
+
+(* The smallest network, over EVERY history of the provider (NetPair.v).  [preach T c L w]: the hostname + provider +
+   prober composite has gone through any sequence of handler invocations (messages of every kind, timers firing at any
+   instants, update with a service of type T, destruction, re-creation) and a passive browser of type T - or one that enumerates all types - has heard every
+   multicast response it sent, in order, without loss (bhear: the browser's own onMessageReceived, cache and
+   updateService).  Then, after every handler invocation: while the provider exists and is confirmed the browser reports
+   exactly one service - the served type, instance name, SRV target, port and TXT attributes - and its cache holds
+   exactly the served PTR, SRV and TXT records; otherwise it reports none and its cache is empty.  (No record expires:
+   the statement is about histories shorter than the TTLs; T is neither empty nor the enumeration name.) *)
+Theorem C04_pair_converges_partial T c L w :
+  T <> [] -> bytes_eqb T browse_type = false -> preach bhear T c L w ->
+  exists cch b, w = mkWorld [cch] [b] 0 /\
+    (pv_exists (cp_prov c) = true -> pv_confirmed (cp_prov c) = true ->
+       exists nm, r_name (pv_srv (cp_prov c)) = Some (nm ++ DOT :: T) /\
+                  b_services b = [(nm ++ DOT :: T, svc_of T nm (pv_srv (cp_prov c)) (pv_txt (cp_prov c)))] /\
+                  held cch = [pv_ptr (cp_prov c); pv_srv (cp_prov c); pv_txt (cp_prov c)]) /\
+    (pv_exists (cp_prov c) && pv_confirmed (cp_prov c) = false -> b_services b = [] /\ held cch = []).
+Proof. exact (pair_converges_once T c L w). Qed.
+Print Assumptions C04_pair_converges_partial.
+
+(* the same when multicasts are duplicated: every multicast response arrives 1 + d(message) times in a row, for any d *)
+Theorem C04_pair_converges_duplicated_partial (d : message -> nat) T c L w :
+  T <> [] -> bytes_eqb T browse_type = false -> preach (bheard d) T c L w ->
+  exists cch b, w = mkWorld [cch] [b] 0 /\
+    (pv_exists (cp_prov c) = true -> pv_confirmed (cp_prov c) = true ->
+       exists nm, r_name (pv_srv (cp_prov c)) = Some (nm ++ DOT :: T) /\
+                  b_services b = [(nm ++ DOT :: T, svc_of T nm (pv_srv (cp_prov c)) (pv_txt (cp_prov c)))] /\
+                  held cch = [pv_ptr (cp_prov c); pv_srv (cp_prov c); pv_txt (cp_prov c)]) /\
+    (pv_exists (cp_prov c) && pv_confirmed (cp_prov c) = false -> b_services b = [] /\ held cch = []).
+Proof. exact (pair_converges_duplicated d T c L w). Qed.
+Print Assumptions C04_pair_converges_duplicated_partial.
+
+(* non-vacuity: the history register - create - update - probe completes is a [preach] history ending confirmed *)
+Example C04_pair_nonvacuous :
+  let T := [95; 116; 46]%N in
+  let svc := mkService (Some T) (Some [97]%N) None 80 [] in
+  exists c L w, preach bhear T c L w /\ pv_exists (cp_prov c) = true /\ pv_confirmed (cp_prov c) = true /\ length L = 3%nat.
+Proof.
+  cbv zeta. eexists. eexists. eexists. split.
+  - eapply (pr_step bhear _ _ _ _ 4000 4000 (EvTimer T_PROBER)).
+    + eapply (pr_step bhear _ _ _ _ 2000 2000 (EvApi (PUpdate (mkService (Some [95; 116; 46]%N) (Some [97]%N) None 80 [])))).
+      * eapply (pr_step bhear _ _ _ _ 2000 2000 (EvApi PNewProv)).
+        -- eapply (pr_step bhear _ _ _ _ 2000 2000 (EvTimer T_REG)).
+           ++ apply (pr_init bhear _ [118; 109]%N [] (Some [95; 116; 46]%N)). left. reflexivity.
+           ++ exact I.
+           ++ exact I.
+        -- vm_compute. reflexivity.
+        -- exact I.
+      * exact I.
+      * reflexivity.
+    + exact I.
+    + exact I.
+  - vm_compute. repeat split.
+Qed.
+
+(* A FIFO link with arbitrary delay (NetLag.v).  [qreach hear T c L q Lh w]: the provider's effects queue up on the link (q)
+   and are delivered to the browser one at a time, at any later moments, interleaved in any way with the provider's
+   further handler invocations (q_send / q_deliver in any order).  Whenever the link has drained, the browser reports
+   exactly what the provider serves now - also when every multicast is delivered 1 + d(message) times.  The synchronous
+   link of C04_pair_converges_partial is the special case "deliver everything before the provider goes on". *)
+Theorem C04_lagging_pair_converges_partial T c L Lh w :
+  T <> [] -> bytes_eqb T browse_type = false -> qreach bhear T c L [] Lh w ->
+  exists cch b, w = mkWorld [cch] [b] 0 /\
+    (pv_exists (cp_prov c) = true -> pv_confirmed (cp_prov c) = true ->
+       exists nm, r_name (pv_srv (cp_prov c)) = Some (nm ++ DOT :: T) /\
+                  b_services b = [(nm ++ DOT :: T, svc_of T nm (pv_srv (cp_prov c)) (pv_txt (cp_prov c)))] /\
+                  held cch = [pv_ptr (cp_prov c); pv_srv (cp_prov c); pv_txt (cp_prov c)]) /\
+    (pv_exists (cp_prov c) && pv_confirmed (cp_prov c) = false -> b_services b = [] /\ held cch = []).
+Proof. exact (lagging_pair_converges T c L Lh w). Qed.
+Print Assumptions C04_lagging_pair_converges_partial.
+
+Theorem C04_lagging_pair_converges_duplicated_partial (d : message -> nat) T c L Lh w :
+  T <> [] -> bytes_eqb T browse_type = false -> qreach (bheard d) T c L [] Lh w ->
+  exists cch b, w = mkWorld [cch] [b] 0 /\
+    (pv_exists (cp_prov c) = true -> pv_confirmed (cp_prov c) = true ->
+       exists nm, r_name (pv_srv (cp_prov c)) = Some (nm ++ DOT :: T) /\
+                  b_services b = [(nm ++ DOT :: T, svc_of T nm (pv_srv (cp_prov c)) (pv_txt (cp_prov c)))] /\
+                  held cch = [pv_ptr (cp_prov c); pv_srv (cp_prov c); pv_txt (cp_prov c)]) /\
+    (pv_exists (cp_prov c) && pv_confirmed (cp_prov c) = false -> b_services b = [] /\ held cch = []).
+Proof. exact (lagging_pair_converges_duplicated d T c L Lh w). Qed.
+Print Assumptions C04_lagging_pair_converges_duplicated_partial.
+
+Theorem C04_synchronous_is_lagging T c L w : preach bhear T c L w -> qreach bhear T c L [] L w.
+Proof. exact (synchronous_is_lagging T c L w). Qed.
+Print Assumptions C04_synchronous_is_lagging.
+
+(* The expiry hop ("one whose provider silently vanishes disappears when the TTL of its SRV record runs out"): when the
+   lifetime of the held SRV record has run out - alone, or together with the PTR and TXT records announced with it - the
+   cache's timer handler drops it and announces the expiry, and the browser that reports the instance reports it as removed. *)
+Theorem C04_srv_expiry_heard_partial now (ptr srv txt : record) (T nm : list N) b x1 r1 x3 r3 t2 nxt tm s :
+  announces ptr srv txt T nm -> b_cache b = 0%nat ->
+  smap_find (nm ++ DOT :: T) (b_services b) = Some s -> bs_is_null (s_name s) = false ->
+  t2 <> [] -> Forall (fun x => x <= now) t2 -> now < x1 -> now < x3 ->
+  In (ESig 0%N SIG_serviceRemoved (PService s))
+     (snd (world_cache_timeout now 0 (mkWorld [mkCache [mkEntry ptr (x1 :: r1); mkEntry srv t2; mkEntry txt (x3 :: r3)] nxt tm] [b] 0))).
+Proof. exact (srv_expiry_heard now ptr srv txt T nm b x1 r1 x3 r3 t2 nxt tm s). Qed.
+Print Assumptions C04_srv_expiry_heard_partial.
+
+Theorem C04_all_expire_heard_partial now (ptr srv txt : record) (T nm : list N) b t1 t2 t3 nxt tm s :
+  announces ptr srv txt T nm -> b_cache b = 0%nat ->
+  smap_find (nm ++ DOT :: T) (b_services b) = Some s -> bs_is_null (s_name s) = false ->
+  t1 <> [] -> t2 <> [] -> t3 <> [] ->
+  Forall (fun x => x <= now) t1 -> Forall (fun x => x <= now) t2 -> Forall (fun x => x <= now) t3 ->
+  In (ESig 0%N SIG_serviceRemoved (PService s))
+     (snd (world_cache_timeout now 0 (mkWorld [mkCache [mkEntry ptr t1; mkEntry srv t2; mkEntry txt t3] nxt tm] [b] 0))).
+Proof. exact (all_expire_heard now ptr srv txt T nm b t1 t2 t3 nxt tm s). Qed.
+Print Assumptions C04_all_expire_heard_partial.
+
+(* non-vacuity, by computation: after the announcement of C04_hop_nonvacuous (heard at 4100 ms, TTL 3600 s) nothing more
+   arrives; the cache's timer handler run at the end of the lifetime makes the browser report the removal *)
+Example C04_expiry_hop_nonvacuous :
+  let h0 := fst (on_rebroadcast (mkHost [118; 109]%N [] [] [] false 1)) in
+  let svc := mkService (Some [95; 116; 46]%N) (Some [97]%N) None 80 [] in
+  let evs := [(2000, EvTimer T_REG); (2000, EvApi PNewProv); (2000, EvApi (PUpdate svc)); (4000, EvTimer T_PROBER)] in
+  let c := fold_left (fun c ne => fst (comp_handle (fst ne) c (snd ne))) evs (mkComp h0 no_prov None) in
+  let w0 := mkWorld [empty_cache] [mkBrowser (Some [95; 116; 46]%N) 0 [] [] []] 0 in
+  match decode (to_packet (announce_msg (cp_prov c))) with
+  | Ok m1 =>
+      let w1 := fst (browser_on_message 4100 0 m1 w0) in
+      map (fun e => match e with ESig ob sg (PService s) => (ob, sg, bs_data (s_name s)) | _ => (9, 9, [])%N end)
+          (filter (fun e => match e with ESig _ _ _ => true | _ => false end) (snd (world_cache_timeout 3604100 0 w1)))
+      = [(0, SIG_serviceRemoved, [97])]%N
+  | _ => False
+  end.
+Proof. vm_compute. reflexivity. Qed.
